@@ -69,7 +69,8 @@ def _install_exact_trig(ld, table):
     real math functions (whose float results are lifted to exact rationals)."""
     m = _sys.modules[ld.pkg + '._math']
     if getattr(m, '_c04_exact', None) is not None:
-        m._c04_exact.update(table); return
+        m._c04_exact.clear(); m._c04_exact.update(table)     # task-scoped: never leaks into another task
+        return
     m._c04_exact = dict(table)
     real_cos, real_sin = m.cos, m.sin
     class Deg(float): pass
@@ -145,8 +146,9 @@ def task_fromgeo(family, shape, atm, conv, order, angle, use_map, surf_cols=None
             if fix and k in fix: c.add(class_constraint(s, tops, bots, fix[k]))
             surfaces[k] = s
         pivot = shift = None
+        _install_exact_trig(ld, {GB.ROT_DEG[rot]: GB.ROT[rot]} if rot else {})
         if rot:
-            _install_exact_trig(ld, {GB.ROT_DEG[rot]: GB.ROT[rot]})
+            assert abs(GB.ROT_DEG[rot] - angle) > 1e-6, 'rotation angle must differ from the permeability angle (exact-trig stub)'
             pivot = (c.real('px'), c.real('py'))
         if translate: shift = [c.real('tx'), c.real('ty'), c.real('tz')]
 
@@ -334,8 +336,8 @@ def catalogue(tier):
         add(family='quadfam', shape=2, atm=atm, conv=atm + 1, order=ORDERS[atm], angle=ANGLES[atm], use_map=bool(atm % 2))
     add(family='quadfam', shape=3, atm=0, conv=0, order=None, angle=30.0, use_map=True, surf_cols=[1])
     # (8) rotations / translation
-    for rot, atm in (('p345', 0), ('p51213', 1), ('q90', 2)):
-        add(family='rect', shape=(2, 2, 2), atm=atm, conv=atm, order=None, angle=ANGLES[atm], use_map=bool(atm), rot=rot, translate=(atm != 1), surf_cols=[0, 3])
+    for rot, atm, ang in (('p345', 0, 0.0), ('p51213', 1, 90.0), ('q90', 2, 30.0)):
+        add(family='rect', shape=(2, 2, 2), atm=atm, conv=atm, order=None, angle=ang, use_map=bool(atm), rot=rot, translate=(atm != 1), surf_cols=[0, 3])
     add_split(1, 1, 2, family='mix5', shape=2, atm=0, conv=0, order=None, angle=0.0, use_map=False, surf_cols=[4], mixmode='stretch', rot='p345', translate=True)
     return T
 
